@@ -47,7 +47,18 @@ pub struct Mon {
     /// inside the child
     pub events: Seq<Ev>,
 }
-pub struct Env<S> { pub exit_status: ExitStatus, pub mon: Ghost<Mon>, pub system: S }
+/// the runtime stack as far as a body of this file may look at it (the pinned code does not; a change that does is then judged)
+#[derive(Debug, PartialEq, Eq)] pub enum Frame { Subshell, Other(u8) }
+impl vstd::std_specs::cmp::PartialEqSpecImpl for Frame {
+    open spec fn obeys_eq_spec() -> bool { true }
+    open spec fn eq_spec(&self, other: &Frame) -> bool { *self == *other }
+}
+pub struct Stack { pub verif_frames: Vec<Frame> }
+impl Stack {
+    #[verifier::external_body]
+    pub fn last(&self) -> (r: Option<&Frame>) ensures (match r { Some(f) => self.verif_frames@.len() > 0 && *f == self.verif_frames@.last(), None => self.verif_frames@.len() == 0 }) { unimplemented!() }
+}
+pub struct Env<S> { pub exit_status: ExitStatus, pub mon: Ghost<Mon>, pub stack: Stack, pub system: S }
 
 /// `Config::foreground().start_and_wait(env, async move |sub_env, _job_control| subshell_main(sub_env, body_2).await)`:
 /// starts a child that runs subshell_main on `body` and waits for it
